@@ -9,7 +9,7 @@
    bridge/C05/SolverBridge.v).   solves A t x b  :=  op_t(A) * x = b. *)
 From mathcomp Require Import all_ssreflect all_algebra.
 From Pymoto Require Import Base.StarRing Model.SolverAlg Model.CGinv Model.AutoSolver
-  Proofs.SolverAlgP Proofs.CGinvP Proofs.AutoSolverP.
+  Proofs.SolverAlgP Proofs.CGinvP Proofs.AutoSolverP Model.CGExit Proofs.CGExitP Proofs.CGExitRingP.
 (* executable arithmetic used by the generated correspondence cases (kept in this file's dependency cone) *)
 From Pymoto Require Base.CQMat.
 Set Implicit Arguments.
@@ -143,6 +143,34 @@ Theorem C05_cg_exit_sound :
   small (b - A * (cg_solve tr cj precond orth1 orth2 inv small A b restart maxit x0).1).
 Proof. exact: exit_sound. Qed.
 Print Assumptions C05_cg_exit_sound.
+
+(* the exit test AS WRITTEN (Model/CGExit.v, regenerated from the source: bridge/C05/CGExitBridge.v):
+     cg_small norms tol b r := exit_test tol (norms r) (norms b)
+     exit_test: every column passes  |r_j| / (|b_j| if |b_j| <> 0 else 1) <= tol;   norms = np.linalg.norm(., axis=0)
+   is an ARBITRARY function into exact rationals.  Without the max-iteration warning every column of the TRUE
+   residual b - A x of the returned x meets columns_bound: |r_j| <= tol |b_j| for a non-zero column of b and
+   |r_j| <= tol ABSOLUTELY for a zero column (a zero right-hand side / zero column of a block is inside the domain). *)
+Theorem C05_cg_exit_sound_per_column :
+  forall (M : ringType) (tr cj : M -> M) (precond orth1 orth2 inv : M -> M)
+         (norms : M -> list QArith_base.Q) (tol : QArith_base.Q) (A b : M) (restart maxit : nat) (x0 : M),
+  all_nonneg (norms b) ->
+  ~~ cg_warns tr cj precond orth1 orth2 inv (cg_small norms tol b) A b restart maxit x0 ->
+  columns_bound tol
+    (norms (b - A * (cg_solve tr cj precond orth1 orth2 inv (cg_small norms tol b) A b restart maxit x0).1)) (norms b).
+Proof. move=> M tr cj precond orth1 orth2 inv norms tol A b restart maxit x0; exact: exit_sound_columns. Qed.
+Print Assumptions C05_cg_exit_sound_per_column.
+
+(* zero right-hand side without initial guess (x starts as zeros): for any non-negative tolerance, any matrix, any
+   preconditioner / trans / maxit the routine returns x = 0 (and residual 0) before entering the loop, without
+   warning.  (norms 0 = zeros k : the column norms of the zero block are zero.) *)
+Theorem C05_cg_zero_rhs :
+  forall (M : ringType) (tr cj : M -> M) (precond orth1 orth2 inv : M -> M)
+         (norms : M -> list QArith_base.Q) (tol : QArith_base.Q) (A : M) (restart maxit k : nat),
+  qnonneg tol -> norms 0 = zeros k ->
+  cg_solve tr cj precond orth1 orth2 inv (cg_small norms tol 0) A 0 restart maxit 0 = (0, 0) /\
+  ~~ cg_warns tr cj precond orth1 orth2 inv (cg_small norms tol 0) A 0 restart maxit 0.
+Proof. move=> M tr cj precond orth1 orth2 inv norms tol A restart maxit k; exact: solve_zero_rhs. Qed.
+Print Assumptions C05_cg_zero_rhs.
 
 (* the step does not depend on scaling / mixing of the search directions (why orth's normalisation and the
    dropping of dependent columns cannot change the iterate): p -> p S with S invertible *)
